@@ -62,15 +62,15 @@ CLAIMS = {
     'C05': {
         'text': 'Theorems in Coq about the interpreter model with an outcome constructor for "any other Python exception in flight": for EVERY library behaviour (it may '
                 'raise anything on any arguments), every program, options and world, that outcome never comes out of expression evaluation or statement execution '
-                '(mutual induction over eval/exec; premise: the parser does not let a host exception escape on an included text - C06); the operator block never '
-                'raises; a failed call evaluates to null or the documented failure value, is logged in debug mode, and evaluation continues with the world the call '
+                '(mutual induction over eval/exec; the premise that the parser does not let a host exception escape on an included text is PROVED - C06_total, '
+                'C05_contained_unconditional); the operator block never raises; a failed call evaluates to null or the documented failure value, is logged in debug mode, and evaluation continues with the world the call '
                 'left. The Python arithmetic that can raise (zero divisors, overflow, huge-int to float, int digit limit, complex results) is modelled in Model/Arith.v '
                 'and run inside Coq against the implementation on an adversarial operand matrix; on the implementation the escaping exception class is checked for '
                 'every operator x adversarial pair, EVERY library function x random arguments of every type (20k calls quick), raising host functions, '
                 'evaluate_expression without options, and generated programs on adversarial globals.',
         'note': 'trusted: Coq kernel/vm_compute; transliteration validated by the correspondence; library functions are covered by the universally quantified lib on '
                 'the model side and by the oracle on the code side (testing, stated as such). Outside the quantifier and only counted: CPython recursion limit (F14) and '
-                'single operations that do not return, e.g. int ** huge int (F22). No axioms; premise parser_contained is a visible hypothesis.',
+                'single operations that do not return, e.g. int ** huge int (F22). No axioms.',
         'ref': 'DESIGN.md section 5 C05',
     },
     'C04': {
